@@ -10,6 +10,8 @@ from .. import cfg
 from ..dataflow import local_term, operand_term, term_str, raw_operand_place, raw_place
 from ..facts import AnchorMissing
 
+CRATES = ["parol_runtime.lib"]
+
 META = {
     "explanation": "Decides the structural clause of C08: LookaheadDFA::eval can never read look-ahead token "
                    "i+1 in the automaton state reached before token i (i.e. skip an unmatched token), and "
